@@ -2,7 +2,7 @@ CONSTANTS
   RW = {"a"}
   WW = {"b"}
   Kinds = {"ready", "io"}
-  TokModes = {"no", "slow", "fast"}
+  TokModes = {"no"}
   MaxPW = 1
   MaxFill = 1
   AllowShut = TRUE
